@@ -184,6 +184,14 @@ func c14Exemplars() []*m.Program {
 		one(m.NText("a"), &m.N{K: "verbatim", S: "{{ raw }}{% x %}"}, m.NText("b")),
 		one(m.NText("a"), &m.N{K: "comment", S: " c "}, m.NPrint(x)),
 	)
+	// nested hash literals: closing braces directly before a closing delimiter
+	nested := &m.E{K: "hash", KS: []*m.E{m.EName("a")}, A: []*m.E{{K: "hash", KS: []*m.E{m.EName("b")}, A: []*m.E{m.ENum(1)}}}}
+	nested3 := &m.E{K: "hash", KS: []*m.E{m.EStr("o")}, A: []*m.E{nested}}
+	out = append(out, pr(nested), pr(nested3), pr(m.EAttr(m.EAttr(nested, "a"), "b")), pr(m.ECall("cat", nested)), pr(m.EArr(nested, nested3)),
+		one(&m.N{K: "set", S: "y", X: nested}, m.NPrint(m.EAttr(m.EAttr(m.EName("y"), "a"), "b"))),
+		one(&m.N{K: "include", X: m.EStr("other"), Y: &m.E{K: "hash", KS: []*m.E{m.EStr("x")}, A: []*m.E{nested}}, Only: true}),
+		one(&m.N{K: "if", X: m.EBin("==", m.EAttr(m.EAttr(nested, "a"), "b"), m.ENum(1)), Body: []*m.N{m.NText("t")}}),
+		pr(&m.E{K: "interp", A: []*m.E{m.EStr("a"), m.EAttr(m.EAttr(nested, "a"), "b"), m.EStr("b")}}))
 	// words that are also operators or keywords, used as attribute names, hash
 	// keys, variables and macro names: whatever stick makes of them (several are
 	// syntax errors), it must make the same of every spelling
